@@ -583,3 +583,33 @@ MANIFEST = {
                    "back-ends' readiness are an oracle; counter atomicity is C04's theorem."),
     "technique": "Coq invariants over an event-labelled transition system + trace inclusion of real runs + independent monitor",
 }
+
+
+
+def extra_violations(ctx, stats):
+    """muggle/c/sync/ref_cnt.c is an anchor of C15 and sock_freed_exactly_once_at_zero rests on
+    C04's linearizability theorem for it.  The socket scenarios run real threads and rarely
+    contend on a counter, so the retain/release scenarios of C04 (deterministic scheduler, trace
+    monitor) are run here as well: a counter that loses updates under contention is a C15 violation
+    (context freed while held / never freed)."""
+    import os
+    import props.c04 as C4
+    exe = V.build_vsched_driver(ID, C4.C_DRIVER, C4.REPO_SOURCES, out_name="refcnt_driver")
+    cases = [c for c in C4.generate(ctx.rng.fork("refcnt"), ctx.tier) if c.lines[0].startswith("refcnt")]
+    res = V.run_batch(exe, cases, per_case_timeout=5.0)
+    out = []
+    for c in cases:
+        r = res.get(c.name)
+        if not r or r["status"] == "skipped":
+            continue
+        stats["evaluations"] += 1
+        stats["dist"]["refcnt_scenarios"] = stats["dist"].get("refcnt_scenarios", 0) + 1
+        msg = ("implementation %s: %s" % (r["status"], r["detail"])) if r["status"] != "ok" else C4.monitor(c, r["lines"])
+        if msg:
+            path = c.save(os.path.join(ctx.replay_dir, "refcnt-%s.case" % c.name),
+                          header=["property=C15 (reference counter scenario of C04; replay with: bin/check C04 --replay <file>)",
+                                  "monitor: %s" % msg])
+            out.append((path, "reference counter: " + msg))
+            if len(out) >= 3:
+                break
+    return out
